@@ -30,6 +30,7 @@ import Kopf.Lemmas.C16_Clear
 import Kopf.Lemmas.C16_StatusClear
 import Kopf.Lemmas.C16_Multi
 import Kopf.Lemmas.C16_Restore
+import Kopf.Model.C16_Listed
 namespace Kopf.C16
 open Kopf Kopf.J
 
@@ -1114,5 +1115,40 @@ example : ∀ x, "note".toList ≠ c0.pfx ++ '/' :: x := by
   have h2 : (c0.pfx ++ '/' :: x).take 1 = ['m'] := rfl
   rw [h2] at h
   revert h; decide
+
+/-! ## Where the bodies come from: the listing of a freshly started operator (C16h) -/
+
+/-- `'<Kind>List'.removesuffix('List') = '<Kind>'` for EVERY kind (also kinds that end in L, i, s, t: ReplicaSet, Ingress,
+    TodoList): the kind `list_objs` restores into the items is the kind of the objects -/
+theorem removeSuffix_append (K : Str) : removeSuffix listWord (K ++ listWord) = K := by
+  have h : listWord.isSuffixOf (K ++ listWord) = true := by
+    rw [List.isSuffixOf_iff_suffix]; exact List.suffix_append K listWord
+  simp only [removeSuffix, h, if_true, List.length_append, Nat.add_sub_cancel]
+  exact List.take_left' rfl
+
+/-- a ReplicaSet owned by a Deployment as the cluster stores it, and the list response Kubernetes sends for it -/
+def bodyL : J := obj [("apiVersion", str "apps/v1"), ("kind", str "ReplicaSet"),
+  ("metadata", obj [("name", str "web-1"), ("ownerReferences", arr [obj [("kind", str "Deployment"), ("name", str "web")]])])]
+def rspL : J := obj [("kind", str "ReplicaSetList"), ("apiVersion", str "apps/v1"),
+  ("items", arr [obj [("metadata", obj [("name", str "web-1"), ("ownerReferences", arr [obj [("kind", str "Deployment"), ("name", str "web")]])])]])]
+
+/-- the listed item is the stored ReplicaSet again as far as the names go: same mark, same annotation names at the listing
+    of a restarted operator as at a watch-event (which carries the stored object) -/
+theorem listed_names_identical_instance :
+    (listObjs rspL).map isDRS = [true] ∧
+    (listObjs rspL).map (fun b => annNames env0 c0.pfx c0.v1 b kA) = [annNames env0 c0.pfx c0.v1 bodyL kA] := by
+  constructor <;> decide
+
+/-- NOT so with `rstrip('List')` (seeded change C16h): it strips a character SET, 'ReplicaSetList' becomes 'ReplicaSe', the
+    listed ReplicaSet loses its mark and its names differ from those of the very same object seen in a watch-event -/
+theorem listed_rstrip_witness :
+    rstripChars listWord "ReplicaSetList".toList = "ReplicaSe".toList ∧
+    (listObjsRstrip rspL).map isDRS = [false] ∧
+    (listObjsRstrip rspL).map (fun b => annNames env0 c0.pfx c0.v1 b kA) ≠ [annNames env0 c0.pfx c0.v1 bodyL kA] := by
+  refine ⟨by decide, by decide, by decide⟩
+
+/-- … while kinds ending in none of L, i, s, t come out the same either way (why Pods and custom resources never showed it) -/
+example : rstripChars listWord "PodList".toList = removeSuffix listWord "PodList".toList := by decide
+example : isDRS bodyL = true := by decide
 
 end Kopf.C16
